@@ -145,6 +145,7 @@ pub fn def(tier: Tier) -> PropertyDef {
 		checks.push(pt(&format!("alphabet_{i}"), tier.pick(600, 6000), alphabet_stream(max_len), run));
 	}
 	checks.push(pt("small_n_alphabet", tier.pick(4000, 40000), small_n_alphabet(60), run));
+	checks.extend(crate::fuzz_entry::corpus_checks("C04"));
 	PropertyDef {
 		id: "C04",
 		level: "exploration",
